@@ -175,7 +175,8 @@ POOLS = {
                  "./dot/rel.txt", "a b.txt"],
     "paths": ["features", "features/alice.feature", "more.features/charly.feature", "../other/features",
               "/tmp/c20-abs/features", "tests/bdd", "features/bob.feature:10"],
-    "name": ["Alice", "Bob.*", "^Scenario A$", "login", "check out"],
+    # (" #" / " ;" inside a value are part of the value: ini files know full-line comments only)
+    "name": ["Alice", "Bob.*", "^Scenario A$", "login", "check out", "Issue #12", "Backup ; then"],
 }
 
 # -- tag expressions: text -> own AST (vf.tagref shape); ["cfg"] stands for {config.tags}
@@ -202,7 +203,7 @@ TAG_SETS = [list(c) for n in range(5) for c in itertools.combinations(TAG_UNIVER
 
 UD_NAMES = ["browser", "server", "port", "DEBUG", "Key", "key", "my.config.x", "flag_1"]
 UD_FILE_VALUES = ["firefox", "asterix", "8080", "true", "off", "3.14", "some text", "a=b", "1e3", "yes", "-7", "0",
-                  "x,y,z", "maybe", "2", "007", "-08", "0x10", "+3", "1_0"]
+                  "x,y,z", "maybe", "2", "007", "-08", "0x10", "+3", "1_0", "see #42", "Alice ; Bob"]
 UD_CLI_VALUES = UD_FILE_VALUES + ["", "50%", "no", "1", "on", "false", "+3", "007", "0x10", "4.5.6", "'", '"', "''",
                                   "it's", 'say "hi"', "12abc", "-", "a b  c"]
 GETTERS = ["getint", "getfloat", "getbool", "as:int", "as:float", "as:csv", "as:percent"]
